@@ -8,6 +8,12 @@ use std::path::{Path, PathBuf};
 
 pub const VERIF: &str = "/verif";
 
+/// where evidence/ and replays/ are written: /verif, unless AVGMC_OUT names another directory
+/// (used only by the mutation sweep, whose parallel workers must not share output files)
+pub fn out_root() -> PathBuf {
+    PathBuf::from(std::env::var("AVGMC_OUT").unwrap_or_else(|_| VERIF.to_string()))
+}
+
 #[derive(Clone, Copy, Debug, PartialEq, Eq)]
 pub enum Tier {
     Quick,
@@ -103,7 +109,7 @@ impl PropReport {
         let known = load_known();
         let mut new_violations = 0u64;
         let mut known_hits = 0u64;
-        let dir = PathBuf::from(VERIF).join("replays").join(&self.id);
+        let dir = out_root().join("replays").join(&self.id);
         let _ = std::fs::create_dir_all(&dir);
         let mut all_found: Vec<(&Stats, &Found)> = Vec::new();
         for s in &self.specs {
@@ -166,7 +172,7 @@ impl PropReport {
     }
 
     fn merge_secondary(&self, label: &str, wall_s: f64, violations: u64) {
-        let p = PathBuf::from(VERIF).join("evidence").join(format!("{}.json", self.id));
+        let p = out_root().join("evidence").join(format!("{}.json", self.id));
         let mut ev: Value = std::fs::read_to_string(&p).ok().and_then(|t| serde_json::from_str(&t).ok()).unwrap_or(json!({}));
         let states: u64 = self.specs.iter().map(|s| s.states).sum();
         let transitions: u64 = self.specs.iter().map(|s| s.transitions).sum();
@@ -253,7 +259,7 @@ impl PropReport {
             "wall_s": (wall_s * 1000.0).round() / 1000.0,
             "violations": violations,
         });
-        let dir = PathBuf::from(VERIF).join("evidence");
+        let dir = out_root().join("evidence");
         let _ = std::fs::create_dir_all(&dir);
         let p = dir.join(format!("{}.json", self.id));
         std::fs::write(&p, serde_json::to_string_pretty(&ev).unwrap()).expect("write evidence");
